@@ -157,3 +157,143 @@ def calls_named(node: ast.AST, suffixes) -> list[ast.Call]:
       if any(name == s or name.endswith('.' + s) for s in suffixes):
         out.append(n)
   return out
+
+
+# ---------------------------------------------------------------------------
+# Path-sensitive substitution (structured: If / straight-line; no loops)
+# ---------------------------------------------------------------------------
+class Path:
+
+  def __init__(self):
+    self.conds: list[tuple[ast.AST, bool]] = []
+    self.env: dict[str, ast.AST] = {}
+    self.ret: Optional[ast.AST] = None
+    self.raises: Optional[ast.Raise] = None
+    self.calls: list[ast.Call] = []  # expression statements (calls) in order
+
+  def clone(self):
+    p = Path()
+    p.conds = list(self.conds)
+    p.env = dict(self.env)
+    p.calls = list(self.calls)
+    return p
+
+  def cond_text(self) -> str:
+    return ' and '.join(('' if t else 'not ') + '(' + norm(c) + ')' for c, t in self.conds) or 'True'
+
+
+def subst(expr: ast.AST, env: dict[str, ast.AST]) -> ast.AST:
+  class T(ast.NodeTransformer):
+    def visit_Name(self, n):  # pylint: disable=invalid-name
+      if isinstance(n.ctx, ast.Load) and n.id in env:
+        return copy.deepcopy(env[n.id])
+      return n
+  return T().visit(copy.deepcopy(expr))
+
+
+def simplify(expr: ast.AST) -> ast.AST:
+  """Folds `<Ctor>(..., k=C).k` to C and `not True/False`."""
+  class T(ast.NodeTransformer):
+    def visit_Attribute(self, n):  # pylint: disable=invalid-name
+      self.generic_visit(n)
+      if isinstance(n.value, ast.Call):
+        for k in n.value.keywords:
+          if k.arg == n.attr:
+            return k.value
+      return n
+
+    def visit_UnaryOp(self, n):  # pylint: disable=invalid-name
+      self.generic_visit(n)
+      if isinstance(n.op, ast.Not) and isinstance(n.operand, ast.Constant) and isinstance(n.operand.value, bool):
+        return ast.Constant(value=not n.operand.value)
+      return n
+  return T().visit(copy.deepcopy(expr))
+
+
+def paths(func_node: ast.FunctionDef, keep: frozenset = frozenset(),
+          max_paths: int = 256) -> list[Path]:
+  """All structured paths with variables substituted by their definitions.
+
+  Names in `keep` are not substituted (stay symbolic). Loops and try blocks
+  are treated as opaque statements that kill the variables they assign.
+  """
+  done: list[Path] = []
+
+  def assign_names(t):
+    if isinstance(t, ast.Name):
+      return [t.id]
+    if isinstance(t, (ast.Tuple, ast.List)):
+      out = []
+      for e in t.elts:
+        out += assign_names(e)
+      return out
+    return []
+
+  def run(body, p: Path) -> list[Path]:
+    live = [p]
+    for st in body:
+      nxt = []
+      for q in live:
+        if isinstance(st, (ast.Assign, ast.AnnAssign)):
+          val = st.value
+          tgts = st.targets if isinstance(st, ast.Assign) else [st.target]
+          if val is not None:
+            v = simplify(subst(val, q.env))
+            for t in tgts:
+              if isinstance(t, ast.Name):
+                if t.id not in keep:
+                  q.env[t.id] = v
+              elif isinstance(t, (ast.Tuple, ast.List)):
+                for i, e in enumerate(t.elts):
+                  if isinstance(e, ast.Name) and e.id not in keep:
+                    if isinstance(v, (ast.Tuple, ast.List)) and len(v.elts) == len(t.elts):
+                      q.env[e.id] = v.elts[i]
+                    else:
+                      q.env[e.id] = ast.Subscript(value=v, slice=ast.Constant(value=i), ctx=ast.Load())
+          nxt.append(q)
+        elif isinstance(st, ast.AugAssign):
+          if isinstance(st.target, ast.Name) and st.target.id not in keep:
+            cur = q.env.get(st.target.id, ast.Name(id=st.target.id, ctx=ast.Load()))
+            q.env[st.target.id] = ast.BinOp(left=cur, op=st.op, right=simplify(subst(st.value, q.env)))
+          nxt.append(q)
+        elif isinstance(st, ast.Return):
+          q.ret = simplify(subst(st.value, q.env)) if st.value is not None else ast.Constant(value=None)
+          done.append(q)
+        elif isinstance(st, ast.Raise):
+          q.raises = st
+          done.append(q)
+        elif isinstance(st, ast.If):
+          test = simplify(subst(st.test, q.env))
+          if isinstance(test, ast.Constant) and isinstance(test.value, bool):
+            branches = [(st.body if test.value else st.orelse, None)]
+          else:
+            branches = [(st.body, True), (st.orelse, False)]
+          for body2, taken in branches:
+            r = q.clone()
+            if taken is not None:
+              r.conds.append((test, taken))
+            nxt += run(body2, r)
+          if len(nxt) + len(done) > max_paths:
+            raise index.AnalysisError('too many paths')
+        elif isinstance(st, ast.Expr):
+          if isinstance(st.value, ast.Call):
+            q.calls.append(simplify(subst(st.value, q.env)))
+          nxt.append(q)
+        elif isinstance(st, (ast.For, ast.While, ast.Try, ast.With)):
+          for sub in ast.walk(st):
+            if isinstance(sub, (ast.Assign, ast.AugAssign, ast.AnnAssign, ast.For)):
+              tg = sub.targets if isinstance(sub, ast.Assign) else [sub.target]
+              for t in tg:
+                for n in assign_names(t):
+                  q.env[n] = ast.Name(id=f'<{n}@L{st.lineno}>', ctx=ast.Load())
+          nxt.append(q)
+        else:
+          nxt.append(q)
+      live = nxt
+    return live
+
+  rest = run(func_node.body, Path())
+  for q in rest:
+    q.ret = ast.Constant(value=None)
+    done.append(q)
+  return done
